@@ -210,8 +210,15 @@ def stored_callable(F, f, push_node, q, R):
         tgt_ok = a1 and (a1['k'] == 'this' or (a1['k'] == 'mem' and a1['n'] == 'm_fsm'))
         # event argument: passed as an lvalue of the event (bind stores a decayed copy) or an any_cast value
         ev_ok = a2 is not None and not (a2['k'] == 'un' and a2['op'] == '&') and not (a2['k'] == 'call' and a2.get('n') in ('ref', 'cref'))
-        ok = pf_ok and tgt_ok and ev_ok
-        why = 'bind(%s): member function %s, target %s, event by value %s' % (', '.join(f.expr(a) for a in args[:3]), 'ok' if pf_ok else 'NOT process_event_internal', 'ok' if tgt_ok else 'NOT the submitting machine', 'ok' if ev_ok else 'NOT a copy')
+        # ... and it is the submitted event: the function's event parameter, or - in the Kleene deferral helper, whose parameter is only
+        # a default-constructed probe of the candidate type - the value held by the stored any (m_event)
+        evdep = dependency_closure(f, args[2])
+        if f.cls == 'defer_event_kleene_helper':
+            src_ok = any(f.nodes[d] and f.nodes[d]['k'] == 'mem' and f.nodes[d].get('n') == 'm_event' for d in evdep)
+        else:
+            src_ok = any(f.nodes[d] and f.nodes[d]['k'] == 'ref' and f.nodes[d].get('dk') == 'param' for d in evdep)
+        ok = pf_ok and tgt_ok and ev_ok and src_ok
+        why = 'bind(%s): member function %s, target %s, event by value %s, event is the submitted one %s' % (', '.join(f.expr(a) for a in args[:3]), 'ok' if pf_ok else 'NOT process_event_internal', 'ok' if tgt_ok else 'NOT the submitting machine', 'ok' if ev_ok else 'NOT a copy', 'ok' if src_ok else 'NO (a default-constructed probe object is stored, the payload is lost)')
         if ok: break
     R.ob('C04.target', ok, {'func': f.q, 'queue': q, 'bind': why})
     if not ok: R.find('C04.target', f, 'stored-callable:' + q, 'element pushed on the %s: %s' % (q, why), where=f.at(push_node))
